@@ -444,6 +444,7 @@ func (p *Program) constGlobal(ex *Exec, g *ssa.Global) *Value {
 	arrSort := ex.L.liftSort(ex.L.intSort(elemT))
 	arr := ex.tb.ConstArr(arrSort, ex.zeroOfSort(ex.L.intSort(elemT)))
 	idx := int64(0)
+	var tabKeys, tabVals []*Term
 	for _, el := range cl.Elts {
 		val := el
 		if kv, ok := el.(*ast.KeyValueExpr); ok {
@@ -465,10 +466,14 @@ func (p *Program) constGlobal(ex *Exec, g *ssa.Global) *Value {
 			lit = ex.bigLit(lit.ival, elemT)
 		}
 		arr = ex.tb.Store(arr, ex.idxLit(idx), lit)
+		tabKeys, tabVals = append(tabKeys, ex.idxLit(idx)), append(tabVals, lit)
 		idx++
 		if idx > n {
 			n = idx
 		}
+	}
+	if ex.L.bv && !isSlice && len(tabVals) <= 1024 {
+		ex.tb.RegisterTable(arr, g.Pkg.Pkg.Name()+"."+g.Name(), ex.idxLit(0).Sort, tabKeys, tabVals, ex.zeroOfSort(ex.L.intSort(elemT)))
 	}
 	var v *Value
 	if isSlice {
@@ -725,7 +730,32 @@ func (p *Program) callOrdinal(site ssa.Instruction, name string) int {
 
 // kindOrdinal: index (in source order) of an instruction among those of the same
 // hookable kind (append, send, return) in its function.
+func kindMatches(in ssa.Instruction, kind string) bool {
+	switch x := in.(type) {
+	case *ssa.Call:
+		if bi, ok := x.Call.Value.(*ssa.Builtin); ok && bi.Name() == kind && (kind == "append" || kind == "copy" || kind == "delete") {
+			return true
+		}
+	case *ssa.MapUpdate:
+		return kind == "mapupdate"
+	case *ssa.Send:
+		return kind == "send"
+	case *ssa.Return:
+		return kind == "return"
+	case *ssa.Go:
+		return kind == "go"
+	case *ssa.Select:
+		return kind == "select"
+	case *ssa.Store:
+		return kind == "store" && isElemOrFieldStore(x)
+	}
+	return false
+}
+
 func (p *Program) kindOrdinal(site ssa.Instruction, kind string) int {
+	if !kindMatches(site, kind) {
+		return -1
+	}
 	fn := site.Parent()
 	type ent struct {
 		in  ssa.Instruction
@@ -734,24 +764,7 @@ func (p *Program) kindOrdinal(site ssa.Instruction, kind string) int {
 	var list []ent
 	for _, b := range fn.Blocks {
 		for _, in := range b.Instrs {
-			match := false
-			switch x := in.(type) {
-			case *ssa.Call:
-				if bi, ok := x.Call.Value.(*ssa.Builtin); ok && bi.Name() == kind {
-					match = true
-				}
-			case *ssa.MapUpdate:
-				match = kind == "mapupdate"
-			case *ssa.Send:
-				match = kind == "send"
-			case *ssa.Return:
-				match = kind == "return"
-			case *ssa.Go:
-				match = kind == "go"
-			case *ssa.Select:
-				match = kind == "select"
-			}
-			if match {
+			if kindMatches(in, kind) {
 				list = append(list, ent{in, in.Pos()})
 			}
 		}
